@@ -736,6 +736,107 @@ def rule_r9(repo, run):
             run.check(R, "ast.add_declarations:dct[splicer]", ok,
                       "the splicer group of a declaration is stored without being turned into lines", am.loc(a))
     run.floor(R, "entry points of splicer text", n, 2)
+    # the last piece of `text.split("\n")` is dropped only when the text ends with a newline (a YAML block scalar does,
+    # a one-line value does not)
+    k = 0
+    for q, fn in sorted(norm.items()):
+        for c in ast.walk(fn):
+            if not (isinstance(c, ast.Call) and isinstance(c.func, ast.Attribute) and c.func.attr == "split" and c.args
+                    and pyflow.const_str(c.args[0]) == "\n"):
+                continue
+            k += 1
+            par = getattr(c, "_parent", None)
+            drops = []
+            if isinstance(par, ast.Subscript) and isinstance(par.slice, ast.Slice) and par.slice.upper is not None:
+                drops.append(par)
+            tgt = None
+            st = par
+            while st is not None and not isinstance(st, ast.stmt):
+                st = getattr(st, "_parent", None)
+            if isinstance(st, ast.Assign):
+                tgt = ast.unparse(st.targets[0])
+                for p_ in ast.walk(fn):
+                    if isinstance(p_, ast.Call) and isinstance(p_.func, ast.Attribute) and p_.func.attr == "pop" and \
+                            ast.unparse(p_.func.value) == tgt and p_.lineno > c.lineno:
+                        drops.append(p_)
+            for d in drops:
+                conds = " ".join(t for t, pol in pyflow.path_atoms(d, stop=fn, seg=ast.unparse) if pol)
+                ok = "'\\n'" in conds or "endswith" in conds or "== ''" in conds
+                run.check(R, "ast.%s:%s:last-piece" % (q, re.sub(r"\s+", "", ast.unparse(d))[:30]), ok,
+                          "`%s` drops the last piece of the split text without having seen that the text ends with a newline: a one-line "
+                          "value (`C_definitions: int x;`, or a `|-` block) loses its last line" % ast.unparse(d), am.loc(d))
+    run.floor(R, "texts split into lines", k, 2)
+
+
+def rule_r10(repo, run):
+    R = run.rule("C12.R10", "user code is looked up one level below the block that is open (_push_splicer descends from the top "
+                            "of the stack, not from the root), and what a wrapper passes as `force` - the contents that replace "
+                            "the user's block - is itself user code (a declaration's `splicer` group), never generated text")
+    um = repo.module("util")
+    ps = um.func("WrapperMixin._push_splicer")
+    pushed = [c for c in ast.walk(ps) if isinstance(c, ast.Call) and ast.unparse(c.func) == "self.splicer_stack.append" and c.args]
+    if not pushed:
+        raise AnalysisError("C12.R10: _push_splicer no longer pushes a level")
+    src = pushed[0].args[0]
+    text = ast.unparse(src)
+    if isinstance(src, ast.Name):
+        for a in ast.walk(ps):
+            if isinstance(a, ast.Assign) and pyflow.is_name(a.targets[0], src.id):
+                text = ast.unparse(a.value)
+    run.check(R, "util.WrapperMixin._push_splicer:descends-from-top", "self.splicer_stack[-1]" in text,
+              "the level pushed for a nested block is `%s`: it is looked up in another dictionary than the block that is open, so user "
+              "code for `class.X.method.m` / `namespace.N.*` is searched at the wrong place and the generated default is written" % text,
+              um.loc(pushed[0]))
+    n = 0
+    for mn in ("wrapc", "wrapf", "wrapp", "wrapl", "util"):
+        m = repo.module(mn)
+        for q, fn in sorted(m.functions().items()):
+            for c in ast.walk(fn):
+                if not (isinstance(c, ast.Call) and (pyflow.call_name(c) or "") == "self._create_splicer"):
+                    continue
+                force = None
+                for k in c.keywords:
+                    if k.arg == "force":
+                        force = k.value
+                if force is None and len(c.args) >= 4:
+                    force = c.args[3]
+                if force is None or (isinstance(force, ast.Constant) and force.value is None):
+                    continue
+                n += 1
+                ok = False
+
+                def user_sourced(f_, name, depth=0):
+                    binds = [a for a in ast.walk(f_) if isinstance(a, ast.Assign) and any(pyflow.is_name(t, name) for t in a.targets)]
+                    if binds:
+                        return all((isinstance(a.value, ast.Constant) and a.value.value is None) or ".splicer" in ast.unparse(a.value)
+                                   for a in binds)
+                    params = [a.arg for a in f_.args.args]
+                    if name in params and depth < 2:
+                        idx = params.index(name) - (1 if params and params[0] == "self" else 0)
+                        sites = []
+                        for q2, f2 in m.functions().items():
+                            for c2 in ast.walk(f2):
+                                if isinstance(c2, ast.Call) and isinstance(c2.func, ast.Attribute) and c2.func.attr == f_.name:
+                                    arg = None
+                                    for k2 in c2.keywords:
+                                        if k2.arg == name:
+                                            arg = k2.value
+                                    if arg is None and idx < len(c2.args):
+                                        arg = c2.args[idx]
+                                    sites.append((f2, arg))
+                        return bool(sites) and all(a is not None and ((isinstance(a, ast.Constant) and a.value is None) or
+                                                   (isinstance(a, ast.Name) and user_sourced(f2, a.id, depth + 1)) or
+                                                   ".splicer" in ast.unparse(a)) for f2, a in sites)
+                    return False
+                if isinstance(force, ast.Name):
+                    ok = user_sourced(fn, force.id)
+                elif ".splicer" in ast.unparse(force):
+                    ok = True
+                run.check(R, "%s.%s:_create_splicer(%s):force" % (mn, q, re.sub(r"\s+", "", ast.unparse(c.args[0]))[:30] if c.args else "?"), ok,
+                          "`force=%s` replaces whatever the user supplied for this block, and it is not taken from a declaration's "
+                          "`splicer` group: generated text passed in this slot silently discards the user's code (it belongs in "
+                          "`default`)" % ast.unparse(force), m.loc(c))
+    run.floor(R, "blocks with forced contents", n, 2)
 
 
 def run(repo, run, tier):
@@ -748,3 +849,4 @@ def run(repo, run, tier):
     rule_r7(repo, run)
     rule_r8(repo, run)
     rule_r9(repo, run)
+    rule_r10(repo, run)
